@@ -205,6 +205,22 @@ func (r *Runner) run(spec *PropSpec) *runResult {
 		}
 	}
 	for _, g := range spec.Grounds {
+		if g == "guarded" {
+			ver := map[string]bool{}
+			for _, k := range keys {
+				if c := r.w.Contracts[k]; c == nil || c.Opts["noverify"] == "" {
+					ver[k] = true
+				}
+			}
+			fc := r.w.groundGuardedAccess(ver)
+			res.ctxs = append(res.ctxs, fc)
+			res.obls = append(res.obls, fc.obls...)
+		}
+		if g == "cachetypes" {
+			fc := r.w.groundCacheTypes()
+			res.ctxs = append(res.ctxs, fc)
+			res.obls = append(res.obls, fc.obls...)
+		}
 		if g == "jsonshape" {
 			fc := r.w.groundJSONShape()
 			res.ctxs = append(res.ctxs, fc)
